@@ -285,6 +285,17 @@ def cmd_checks(a):
     todo = [(muts[i], a.nproc) for i in surv if i not in done and i in muts]
     if a.only:
         todo = [t for t in todo if a.only in t[0]["file"]]
+    if a.sample:
+        # deterministic sample: every k-th survivor of each file, at most `sample` per file
+        byf = {}
+        for t in [(muts[i], a.nproc) for i in surv if i in muts]:
+            byf.setdefault(t[0]["file"], []).append(t)
+        pick = set()
+        for f, ts in byf.items():
+            n = len(ts)
+            for j in range(min(a.sample, n)):
+                pick.add(ts[(j * n) // min(a.sample, n)][0]["id"])
+        todo = [t for t in todo if t[0]["id"] in pick]
     print("survivors", len(surv), "todo", len(todo))
     with cf.ProcessPoolExecutor(a.jobs) as ex, open(os.path.join(OUT, "checks.jsonl"), "a") as f:
         for r in ex.map(run_checks, todo):
@@ -332,7 +343,7 @@ def main():
     sub = ap.add_subparsers(dest="cmd", required=True)
     g = sub.add_parser("gen"); g.add_argument("--per-file", type=int, default=40)
     t = sub.add_parser("tests"); t.add_argument("--jobs", type=int, default=12)
-    c = sub.add_parser("checks"); c.add_argument("--jobs", type=int, default=4); c.add_argument("--nproc", type=int, default=4); c.add_argument("--only", default=None)
+    c = sub.add_parser("checks"); c.add_argument("--jobs", type=int, default=4); c.add_argument("--nproc", type=int, default=4); c.add_argument("--only", default=None); c.add_argument("--sample", type=int, default=0)
     sub.add_parser("report")
     a = ap.parse_args()
     {"gen": cmd_gen, "tests": cmd_tests, "checks": cmd_checks, "report": cmd_report}[a.cmd](a)
